@@ -17,8 +17,9 @@ VARIABLE tid
 
 Verdict(x) ==
     CASE x.kind = "gj" ->
-            [id |-> x.id, failed |-> GjFailed(x), known |-> GjKnown(x),
-             cls |-> GjClass(x)]
+            LET v == GjVerdict(x)
+            IN [id |-> x.id, failed |-> v.failed, known |-> v.known,
+                cls |-> v.cls]
       [] x.kind = "hl" ->
             [id |-> x.id, failed |-> HelperFailed(x), known |-> {},
              cls |-> x.op]
